@@ -63,6 +63,15 @@ theorem fits_any_false (idxs : List Int) (w : Nat) (hw32 : (w : Int) ≤ 2147483
   have hf : FitsC c := by unfold FitsC; omega
   simp [hf]
 
+/-- The positions of an enumerated list are `0 .. length-1`. -/
+theorem zipIdx_map_snd {β γ : Type} (l : List β) (g : Nat → γ) :
+    l.zipIdx.map (fun p => g p.2) = (List.range l.length).map g := by
+  have : ∀ (n : Nat), (l.zipIdx n).map (fun p => g p.2) = (List.range' n l.length).map g := by
+    induction l with
+    | nil => intro n; simp
+    | cons x xs ih => intro n; simp [List.zipIdx_cons, List.range'_succ, ih]
+  rw [this 0, List.range_eq_range']
+
 variable {α : Type}
 
 /-- The extraction loop after `k` iterations: the first `k` fields are filled, the rest is still null. -/
